@@ -155,6 +155,9 @@ func c15rule(nm string, op QoSRuleOperationCode, kinds [][]int) (QoSRule, []byte
 		content = append(content, comps...)
 		r.PacketFilterList = append(r.PacketFilterList, pf)
 	}
+	if len(kinds) == 0 && vrt.Bool(nm+"emptyNotNil") {
+		r.PacketFilterList = PacketFilterList{} // no filters as an empty, non-nil list: same encoding as nil
+	}
 	qfiOctet := r.QFI
 	if r.Segregation {
 		qfiOctet |= 1 << 6
@@ -314,6 +317,9 @@ func c15desc(nm string, op QoSFlowOperationCode, kinds []int) (QoSFlowDesc, []by
 		p, e := c15param(fmt.Sprintf("%sp%d", nm, i), k)
 		d.Parameters = append(d.Parameters, p)
 		enc = append(enc, e...)
+	}
+	if len(kinds) == 0 && vrt.Bool(nm+"emptyNotNil") {
+		d.Parameters = QoSFlowParameterList{} // no parameters as an empty, non-nil list: same encoding as nil
 	}
 	return d, enc
 }
